@@ -102,6 +102,7 @@ static void op_c01_damage(Exec& x, const Json& op, int)
 	const Content& c = lc->c;
 	Rng r((uint64_t)op.num("seed"));
 	unsigned N = (unsigned)x.sb.cfg.np;
+	if (op.num("nolimit")) N = 1000; // family fixsafe: any amount of damage
 	StripeMap sm = build_stripes(c);
 	Damage dm;
 	dm.cnt.assign(c.blockmax, 0);
@@ -126,8 +127,8 @@ static void op_c01_damage(Exec& x, const Json& op, int)
 		// whole devices: k <= N of (data disks + parity levels)
 		std::vector<int> devs; // >=0 data map idx, <0 parity level -(l+1)
 		for (size_t m = 0; m < c.maps.size(); ++m) devs.push_back((int)m);
-		for (unsigned l = 0; l < N; ++l) devs.push_back(-(int)(l + 1));
-		unsigned k = 1 + (unsigned)r.below(N);
+		for (unsigned l = 0; l < (unsigned)x.sb.cfg.np; ++l) devs.push_back(-(int)(l + 1));
+		unsigned k = 1 + (unsigned)r.below(std::min<unsigned>(N, (unsigned)devs.size()));
 		if (op.has("k")) k = (unsigned)op.num("k");
 		for (unsigned i = 0; i < k && !devs.empty(); ++i) {
 			size_t j = r.below(devs.size());
@@ -224,9 +225,15 @@ static void op_c01_damage(Exec& x, const Json& op, int)
 				}
 			} else if (what <= 7 && c.blockmax > 0) {
 				// parity block
-				int l = (int)r.below(N);
+				int l = (int)r.below((unsigned)x.sb.cfg.np);
 				uint32_t pos = (uint32_t)r.below(c.blockmax);
 				if (sm.at[pos].empty()) continue;
+				if (op.num("parity_only_hashed")) {
+					// silent parity corruption is detectable only through recorded hashes of the stripe's blocks
+					bool all_hashed = true;
+					for (auto& b : sm.at[pos]) if (b.file_idx < 0 || b.state == BS_CHG) all_hashed = false;
+					if (!all_hashed) continue;
+				}
 				if (!dm.hit_parity.count({ l, pos }) && !can_hit({ pos })) continue;
 				uint64_t off = 0;
 				std::string rel = parity_location(x.sb, c, l, pos, off);
